@@ -7,7 +7,7 @@ import Splipy.Lemmas.C18NumberingE
 
 namespace Splipy.MP.C18X
 
-open Splipy Splipy.MP
+open Splipy Splipy.MP Splipy.MP.C18L
 
 /-- boolean version of `WellOrdered` -/
 def wellOrderedB (plans : List PatchPlan) : Bool :=
